@@ -1,4 +1,4 @@
-CONSTANTS Families = {"free4", "gen", "nop", "db", "incl"}
+CONSTANTS Families = {"gen4", "focus6", "nop", "db", "incl"}
  Family <- QuickFamily
  MaxSects = 2
  MaxDepth = 2
